@@ -24,9 +24,9 @@ BOUNDS = {
 MASKS = ["e", "u", "s", "eu", "es", "us", "eus"]
 
 
-def body_resume(cfg, k, value, *vals):
-    """cfg = (n, b, drop_last, dlm, budget kind, kind masks, how) ; how in epoch|update|sample"""
-    n, b, drop_last, dlm, kind, kinds, how = cfg
+def body_resume(cfg, value, *vals):
+    """cfg = (n, b, drop_last, dlm, budget kind, kind masks, how, k) ; how in epoch|update|sample"""
+    n, b, drop_last, dlm, kind, kinds, how, k = cfg
     dlbs = None if dlm == 0 else dlm * b
     cfgs = ilv.mk_cfgs(kinds, vals)
     spe, upe = ilv.geometry(n, b, drop_last, dlbs)
@@ -55,17 +55,17 @@ def body_resume(cfg, k, value, *vals):
     return True
 
 
-def resume_cond(geo, kind, masks, how, kmax, span, to, **kw):
+def resume_cond(geo, kind, masks, how, k, span, to, **kw):
     n, b, dl, dlm = geo
     spe, upe = ilv.geometry(n, b, dl, None if dlm == 0 else dlm * b)
-    vmax = {"epochs": f"k + {span}", "updates": f"(k + {span}) * {upe}", "samples": f"(k + {span}) * {spe}"}[kind]
-    name = f"resume[{how};n={n},b={b},dl={int(dl)},dlm={dlm};{kind};configs={'+'.join(masks) or '-'}]"
+    vmax = {"epochs": k + span, "updates": (k + span) * upe, "samples": (k + span) * spe}[kind]
+    name = f"resume[{how}={k};n={n},b={b},dl={int(dl)},dlm={dlm};{kind};configs={'+'.join(masks) or '-'}]"
     return Cond(
-        name=name, harness="harness.c06", body="body_resume", cfg=(n, b, dl, dlm, kind, tuple(masks), how),
-        params=[("k", "int"), ("value", "int")] + cfg_params(len(masks)),
-        pre=[f"1 <= k <= {kmax}", f"1 <= value <= {vmax}"] + cfg_pre(masks, **kw),
-        timeout=to, group=f"resume-{how}", cost=1 + 3 * len(masks),
-        bounds=f"geometry concrete; k<={kmax}; budget up to {span} epochs past the checkpoint",
+        name=name, harness="harness.c06", body="body_resume", cfg=(n, b, dl, dlm, kind, tuple(masks), how, k),
+        params=[("value", "int")] + cfg_params(len(masks)),
+        pre=[f"1 <= value <= {vmax}"] + cfg_pre(masks, **kw),
+        timeout=to, group=f"resume-{how}", cost=(1 + 3 * len(masks)) * k,
+        bounds=f"geometry and resume epoch k={k} concrete; budget symbolic up to {span} epochs past the checkpoint; interval lengths enumerated, config size/batch size symbolic",
     )
 
 
@@ -73,20 +73,20 @@ def conditions(tier, rng):
     q = tier == "quick"
     to = 600 if q else 1800
     conds = []
-    geos = [g for g in geometries(5 if q else 6) if ilv.geometry(g[0], g[1], g[2], None if g[3] == 0 else g[3] * g[1])[0] > 0]
-    kmax = 3 if q else 4
+    geos = geometries(5 if q else 6)
+    singles = [f"e{v}" for v in (1, 2, 3)] + [f"u{v}" for v in (1, 2, 3, 4)] + [f"s{v}" for v in range(1, 10)]
+    multis = [f"e{a}u{c}" for a in (1, 2) for c in (2, 3)] + [f"e{a}s{c}" for a in (1, 3) for c in (2, 5, 7)] + \
+             [f"u{a}s{c}" for a in (2, 3) for c in (3, 4, 7)] + [f"e2u{c}s{d}" for c in (2, 3) for d in (3, 5)]
+    ks = (1, 2, 3) if q else (1, 2, 3, 4)
     for g in geos:
         for kind in ("epochs", "updates", "samples"):
             for how in ("epoch", "update", "sample"):
-                conds.append(resume_cond(g, kind, [], how, kmax, 2, to))
-    sub = rng.sample(geos, 10) if q else geos
-    for g in sub:
-        for kind in ("epochs", "updates", "samples"):
-            for how in ("epoch", "update", "sample"):
-                for mk in (rng.sample(MASKS, 2) if q else MASKS):
-                    conds.append(resume_cond(g, kind, [mk], how, kmax, 2, to, m_max=2, cbs_max=1, ex_max=0, ene_max=3, enu_max=3, ens_max=7))
+                for k in (ks if not q else rng.sample(ks, 1)):
+                    conds.append(resume_cond(g, kind, [], how, k, 2, to))
+                    for mk in (rng.sample(singles, 1) + rng.sample(multis, 1) if q else rng.sample(singles, 5) + rng.sample(multis, 5)):
+                        conds.append(resume_cond(g, kind, [mk], how, k, 2, to, m_max=2, cbs_max=1, ex_max=0))
     if not q:
-        for g in rng.sample(geos, 12):
+        for g in rng.sample(geos, 24):
             for kind in ("epochs", "updates", "samples"):
-                conds.append(resume_cond(g, kind, ["us", "e"], "epoch", 3, 2, to, m_max=1, cbs_max=0, ex_max=0, ene_max=2, enu_max=3, ens_max=5))
+                conds.append(resume_cond(g, kind, [rng.choice(multis), rng.choice(singles)], "epoch", rng.choice(ks), 2, to, m_max=1, cbs_max=0, ex_max=0))
     return conds
